@@ -33,8 +33,17 @@ static void run_calls (const std::string& name, std::initializer_list<symx::real
   fn (name, [s, ncalls] {
     set_script (s);
     BoxMuller g;
-    for (unsigned k=0; k<ncalls; k++) out (nm ("d", k), double (g.evaluate ()));
+    std::vector<double> got;
+    for (unsigned k=0; k<ncalls; k++) { double d = g.evaluate (); got.push_back (d); out (nm ("d", k), d); }
     out_int ("uniforms_consumed", script_pos);
+    if (!symbolic) {   // reference: two deviates per accepted pair of the scripted stream, in order
+      std::vector<symx::real_t> want; std::vector<symx::real_t> u (s);
+      for (size_t i=0; i+1 < u.size() && want.size() < ncalls; i+=2) {
+        float v1 = 2.0*u[i] - 1.0, v2 = 2.0*u[i+1] - 1.0; float w = v1*v1 + v2*v2;
+        if (w >= 1.0 || w == 0.0) continue;
+        float f = std::sqrt ((-2.0 * std::log (w)) / w); want.push_back (v1*f); want.push_back (v2*f); }
+      for (unsigned k=0; k<ncalls && k<want.size(); k++) expect ("deviate " + std::to_string (k) + " of the stream = polar transform of the accepted pairs", got[k], want[k], 1e-6);
+    }
   }, 1);
 }
 
